@@ -20,10 +20,20 @@ Init == /\ prog = <<>> /\ steps = 0 /\ input \in Inputs /\ m = InitState(input)
 Grow == /\ m.status = "run" /\ m.pc = Len(prog) /\ Len(prog) < MaxLen
         /\ \E c \in Alphabet : prog' = Append(prog, c)
         /\ UNCHANGED <<m, steps, input>>
-Run ==  /\ Running(m, prog) /\ steps < MaxSteps
-        /\ m' = Step(m, prog) /\ steps' = steps + 1
-        /\ UNCHANGED <<prog, input>>
-Next == Grow \/ Run
+\* one named action per command kind, so that -coverage reports how often each kind was executed
+RunPush == /\ Running(m, prog) /\ steps < MaxSteps /\ prog[m.pc + 1].k = 0
+           /\ m' = Step(m, prog) /\ steps' = steps + 1 /\ UNCHANGED <<prog, input>>
+RunAdd == /\ Running(m, prog) /\ steps < MaxSteps /\ prog[m.pc + 1].k = 1
+          /\ m' = Step(m, prog) /\ steps' = steps + 1 /\ UNCHANGED <<prog, input>>
+RunMultiply == /\ Running(m, prog) /\ steps < MaxSteps /\ prog[m.pc + 1].k = 2
+               /\ m' = Step(m, prog) /\ steps' = steps + 1 /\ UNCHANGED <<prog, input>>
+RunNegateSum == /\ Running(m, prog) /\ steps < MaxSteps /\ prog[m.pc + 1].k = 3
+                /\ m' = Step(m, prog) /\ steps' = steps + 1 /\ UNCHANGED <<prog, input>>
+RunInvertProduct == /\ Running(m, prog) /\ steps < MaxSteps /\ prog[m.pc + 1].k = 4
+                    /\ m' = Step(m, prog) /\ steps' = steps + 1 /\ UNCHANGED <<prog, input>>
+RunDuplicate == /\ Running(m, prog) /\ steps < MaxSteps /\ prog[m.pc + 1].k = 5
+                /\ m' = Step(m, prog) /\ steps' = steps + 1 /\ UNCHANGED <<prog, input>>
+Next == Grow \/ RunPush \/ RunAdd \/ RunMultiply \/ RunNegateSum \/ RunInvertProduct \/ RunDuplicate
 Spec == Init /\ [][Next]_vars
 
 \* keep values within a few digits so that exploration stays finite
